@@ -3,6 +3,7 @@ package ctxiso
 import (
 	"bytes"
 	"compress/gzip"
+	"compress/zlib"
 	"encoding/base64"
 	"encoding/xml"
 	"fmt"
@@ -40,14 +41,26 @@ type immCfg struct {
 	//  4 ProxyHeader=X-Forwarded-For, TrustProxy on, the peer NOT listed: forwarding headers ignored
 	Proxy int
 	Split bool // Config.EnableSplittingOnParsers
+	// ReduceMem: Config.ReduceMemoryUsage (fasthttp hands request body buffers back to a pool)
+	ReduceMem bool
+	// Nested: between its first and its second look at the request the handler sends a request with
+	// a body of its own to the app over a second connection (as a handler calling a sibling
+	// service of the same process does): other traffic is being read while this request is open
+	Nested bool
+	// ZeroCopyJSON: Config.JSONDecoder is a decoder whose strings are views of its input
+	ZeroCopyJSON bool
 }
 
 func (c immCfg) String() string {
-	return fmt.Sprintf("custom=%v cs=%v strict=%v unescape=%v proxy=%d split=%v", c.Custom, c.CaseSens, c.Strict, c.Unescape, c.Proxy, c.Split)
+	return fmt.Sprintf("custom=%v cs=%v strict=%v unescape=%v proxy=%d split=%v reducemem=%v nested=%v zerocopyjson=%v",
+		c.Custom, c.CaseSens, c.Strict, c.Unescape, c.Proxy, c.Split, c.ReduceMem, c.Nested, c.ZeroCopyJSON)
 }
 
 // body kinds
-var immKinds = []string{"none", "form", "multipart", "json", "xml", "cbor", "gzip-json"}
+var immKinds = []string{"none", "form", "multipart", "json", "xml", "cbor", "gzip-json", "json", "gzip+deflate-json", "deflate+gzip-json"}
+
+// stacked: the body carries two content codings
+func stacked(kind string) bool { return kind == "gzip+deflate-json" || kind == "deflate+gzip-json" }
 
 type immShape struct {
 	Kind string
@@ -249,7 +262,7 @@ func genImmReq(r *gen.Rand, sh *immShape, idx int) *immReq {
 		b.WriteString("--" + bd + "\r\nContent-Disposition: form-data; name=\"ff\"; filename=\"" + v["ffn"] + ".txt\"\r\nContent-Type: text/plain\r\n\r\n" + v["ffc"] + "\r\n")
 		b.WriteString("--" + bd + "--\r\n")
 		q.Plain = b.Bytes()
-	case "json", "gzip-json":
+	case "json", "gzip-json", "gzip+deflate-json", "deflate+gzip-json":
 		ctype = "Application/JSON; Charset=UTF-8"
 		q.Plain = []byte(`{"js":"` + v["fs"] + `","jb":"` + base64.StdEncoding.EncodeToString([]byte(v["jb"])) + `","jl":["` + v["fl0"] + `","` + v["fl1"] + `"]}`)
 	case "xml":
@@ -293,6 +306,30 @@ func genImmReq(r *gen.Rand, sh *immShape, idx int) *immReq {
 		_ = zw.Close()
 		q.Body = zb.Bytes()
 		raw.WriteString("Content-Encoding: gzip\r\n")
+	}
+	if stacked(sh.Kind) {
+		// the codings are listed in the order this framework undoes them
+		gz := func(in []byte) []byte {
+			var zb bytes.Buffer
+			zw := gzip.NewWriter(&zb)
+			_, _ = zw.Write(in)
+			_ = zw.Close()
+			return zb.Bytes()
+		}
+		zl := func(in []byte) []byte {
+			var zb bytes.Buffer
+			zw := zlib.NewWriter(&zb)
+			_, _ = zw.Write(in)
+			_ = zw.Close()
+			return zb.Bytes()
+		}
+		if sh.Kind == "gzip+deflate-json" {
+			q.Body = gz(zl(q.Plain))
+			raw.WriteString("Content-Encoding: gzip, deflate\r\n")
+		} else {
+			q.Body = zl(gz(q.Plain))
+			raw.WriteString("Content-Encoding: deflate, gzip\r\n")
+		}
 	}
 	if sh.CEnc != "" {
 		raw.WriteString("Content-Encoding: " + sh.CEnc + "\r\n")
@@ -577,7 +614,9 @@ func capture(c fiber.Ctx, q *immReq, cfg immCfg, s *capSet, matched, withResp bo
 	bodyExp := q.Shape.Kind != "multipart"
 	// a Content-Encoding the framework does not decode: "identity" means the body as sent; for
 	// other unknown tokens no content is asserted (stability only)
-	s.B("Body", c.Body(), q.Plain, bodyExp && (q.Shape.CEnc == "" || q.Shape.CEnc == "identity"))
+	// two stacked codings: in which order they are to be undone is a matter of C07/C11, not of this
+	// check — the decoded content is not asserted, only that it stays what it was; BodyRaw is.
+	s.B("Body", c.Body(), q.Plain, bodyExp && !stacked(q.Shape.Kind) && (q.Shape.CEnc == "" || q.Shape.CEnc == "identity"))
 	s.B("BodyRaw", c.BodyRaw(), q.Body, bodyExp)
 	if q.Shape.Kind == "form" || q.Shape.Kind == "multipart" {
 		s.S("FormValue", c.FormValue("fv"), v["fv"])
@@ -723,6 +762,18 @@ func capture(c fiber.Ctx, q *immReq, cfg immCfg, s *capSet, matched, withResp bo
 		m := map[string]string{}
 		s.err("Bind.Form.map", c.Bind().Form(&m))
 		s.S("Bind.Form.map-value", m["fs"], mapExp(v["fs"]))
+	case "gzip+deflate-json", "deflate+gzip-json":
+		var st immJ
+		if err := c.Bind().JSON(&st); err == nil {
+			s.S("Bind.JSON.string-field", st.S, noExp)
+			s.LX("Bind.JSON.slice-field", st.L, nil, true)
+		}
+		var st2 immJ
+		if err := c.Bind().Body(&st2); err == nil {
+			s.S("Bind.Body.string-field", st2.S, noExp)
+		}
+		s.B("BodyRaw", c.BodyRaw(), q.Body, true) // once more, after the body was decoded and bound
+		s.B("Body", c.Body(), nil, false)
 	case "json", "gzip-json":
 		var st immJ
 		s.err("Bind.JSON", c.Bind().JSON(&st))
@@ -746,6 +797,8 @@ func capture(c fiber.Ctx, q *immReq, cfg immCfg, s *capSet, matched, withResp bo
 
 type immSide struct {
 	immutable bool
+	app       *fiber.App
+	nested    int
 	sets      []*capSet
 	reqs      []*immReq
 	served    int
@@ -762,6 +815,10 @@ func immBuild(cfg immCfg, immutable bool, side *immSide) *fiber.App {
 		UnescapePath:  cfg.Unescape,
 	}
 	fc.EnableSplittingOnParsers = cfg.Split
+	fc.ReduceMemoryUsage = cfg.ReduceMem
+	if cfg.ZeroCopyJSON {
+		fc.JSONDecoder = zcJSONUnmarshal
+	}
 	switch cfg.Proxy {
 	case 1:
 		fc.ProxyHeader = "X-Real-Ip"
@@ -787,6 +844,8 @@ func immBuild(cfg immCfg, immutable bool, side *immSide) *fiber.App {
 			return &customCtx{DefaultCtx: fiber.NewDefaultCtx(a)}
 		})
 	}
+	side.app = app
+	app.Post("/nested", func(c fiber.Ctx) error { return c.SendString("nested " + strconv.Itoa(len(c.Body()))) })
 	app.Get("/named/:id", func(c fiber.Ctx) error { return c.SendString("named") }).Name("named")
 	app.Add([]string{fiber.MethodGet, fiber.MethodPost}, capRoute, func(c fiber.Ctx) error { return observe(c, true) })
 	return app
@@ -815,6 +874,13 @@ func immObserver(cfg immCfg, side *immSide) func(c fiber.Ctx, matched bool) erro
 		// what a handler ordinarily does next: read-only helpers. None of them may disturb a value
 		// already handed out, nor what a later read returns.
 		readOnlyHelpers(c)
+		if cfg.Nested && side.app != nil {
+			nb := bytes.Repeat([]byte{'N'}, max(len(q.Body), 16))
+			nested := "POST /nested HTTP/1.1\r\nHost: sibling.internal\r\nContent-Type: text/plain\r\nContent-Length: " + strconv.Itoa(len(nb)) + "\r\n\r\n" + string(nb)
+			sc := drive.NewScriptConn([]byte(nested), nil)
+			_ = side.app.Server().ServeConn(sc)
+			side.nested++
+		}
 		cs.phase = "read-after-helpers"
 		capture(c, q, cfg, cs, matched, true)
 		// correctness inside the handler (both modes), and stability until the handler returns
@@ -937,7 +1003,8 @@ func runImmutable(e *ev.Env) {
 	immCorpus(e)
 	e.Cases("run", e.N(300, 20000), func(c *ev.Case) {
 		r := c.R
-		cfg := immCfg{Custom: r.Chance(1, 3), CaseSens: r.Bool(), Strict: r.Bool(), Unescape: r.Bool(), Proxy: r.Intn(5), Split: r.Bool()}
+		cfg := immCfg{Custom: r.Chance(1, 3), CaseSens: r.Bool(), Strict: r.Bool(), Unescape: r.Bool(), Proxy: r.Intn(5), Split: r.Bool(),
+			ReduceMem: r.Chance(1, 3), Nested: r.Chance(1, 3), ZeroCopyJSON: r.Chance(1, 3)}
 		sh := genShape(r)
 		n := gen.Pick(r, []int{1, 3, 10})
 		judgeImm(e, c, cfg, sh, n, r)
@@ -1103,6 +1170,21 @@ func immCorpus(e *ev.Env) {
 		sh := genShape(c.R)
 		sh.Kind, sh.SameHost, sh.Route = "json", true, 0
 		judgeImm(e, c, immCfg{Proxy: 4}, sh, 3, c.R)
+	})
+	e.Corpus("stacked-codings-reducemem-nested", func(c *ev.Case) {
+		sh := genShape(c.R)
+		sh.Kind, sh.Route, sh.CEnc = "gzip+deflate-json", 0, ""
+		judgeImm(e, c, immCfg{ReduceMem: true, Nested: true}, sh, 1, c.R)
+	})
+	e.Corpus("stacked-codings-reducemem-nested-2", func(c *ev.Case) {
+		sh := genShape(c.R)
+		sh.Kind, sh.Route, sh.CEnc = "deflate+gzip-json", 0, ""
+		judgeImm(e, c, immCfg{ReduceMem: true, Nested: true}, sh, 3, c.R)
+	})
+	e.Corpus("zero-copy-json-decoder", func(c *ev.Case) {
+		sh := genShape(c.R)
+		sh.Kind, sh.Route, sh.CEnc = "json", 0, ""
+		judgeImm(e, c, immCfg{ZeroCopyJSON: true}, sh, 1, c.R)
 	})
 	e.Corpus("splitting-commas-form", func(c *ev.Case) {
 		sh := genShape(c.R)
